@@ -57,6 +57,14 @@ pub struct TransportOracle {
     property: &'static str,
     clauses: TransportClauses,
     dirs: BTreeMap<(usize, usize), Dir>,
+    /// World B: submissions of a sender's previous incarnation. The receiver's connection to
+    /// that incarnation outlives the crash (until its silence timeout), and frames still in
+    /// flight are delivered on it: they are matched here until the first delivery of the new
+    /// incarnation's packets.
+    old_dirs: BTreeMap<(usize, usize), Dir>,
+    old_generation_deliveries: u64,
+    /// latest (send_buffer_size, packets queued or awaiting acknowledgement) per direction
+    last_tx: BTreeMap<(usize, usize), (u64, u64)>,
     /// channel on which packets too short to carry a header travel
     short_ch: u8,
     hc_owner: BTreeMap<u64, (usize, Option<usize>)>,
@@ -82,6 +90,9 @@ impl TransportOracle {
             property,
             clauses,
             dirs: BTreeMap::new(),
+            old_dirs: BTreeMap::new(),
+            old_generation_deliveries: 0,
+            last_tx: BTreeMap::new(),
             short_ch: plan.param("short_ch", 0.0) as u8,
             hc_owner: BTreeMap::new(),
             deliveries: 0,
@@ -129,9 +140,23 @@ impl Oracle for TransportOracle {
                 // a new incarnation of an endpoint starts fresh sequences in both directions
                 let ep = *ep;
                 let keys: Vec<(usize, usize)> = self.dirs.keys().filter(|(a, b)| *a == ep || *b == ep).cloned().collect();
+                let world_b = !matches!(cx.plan.endpoints[ep].kind, EndpointKind::Hc { .. });
                 for k in keys {
-                    self.dirs.remove(&k);
+                    let d = self.dirs.remove(&k);
+                    self.old_dirs.remove(&k);
+                    if let (true, true, Some(mut d)) = (world_b, k.0 == ep, d) {
+                        // what the previous incarnation sent may still arrive on the peer's
+                        // connection to it
+                        d.ended = true;
+                        self.old_dirs.insert(k, d);
+                    }
                 }
+            }
+            Rec::Event { ep, peer: Some(peer), ev: AppEvent::Connect, .. } => {
+                // a new server-side connection: what the server queued on the previous one (for
+                // instance towards a crashed client it had not yet timed out) is gone with it
+                self.dirs.remove(&(*ep, *peer));
+                self.old_dirs.remove(&(*ep, *peer));
             }
             Rec::Submit { call, ep, to, ch, mode, payload, accepted, .. } => {
                 if !*accepted {
@@ -182,7 +207,16 @@ impl Oracle for TransportOracle {
                 if !property_order {
                     return None;
                 }
-                let dir = match self.dirs.get_mut(&(src, *ep)) {
+                let key = (src, *ep);
+                let in_current = self.dirs.get(&key).map_or(false, |d| d.subs.iter().any(|s| *s.payload == **p));
+                let use_old = !in_current && self.old_dirs.get(&key).map_or(false, |d| d.subs.iter().any(|s| *s.payload == **p));
+                if in_current && self.old_dirs.remove(&key).is_some() {
+                    // the receiver now serves the new incarnation; nothing older may follow
+                }
+                if use_old {
+                    self.old_generation_deliveries += 1;
+                }
+                let dir = match if use_old { self.old_dirs.get_mut(&key) } else { self.dirs.get_mut(&key) } {
                     Some(d) => d,
                     None => {
                         return viol(prop, "delivered_never_submitted", format!("endpoint {} received {} but endpoint {} never submitted anything", ep, describe(p), src), *call);
@@ -357,6 +391,29 @@ impl Oracle for TransportOracle {
                         }
                     }
                 }
+                if self.clauses.reliable_live {
+                    let t = |h: &uflow::verif::HcProbe| (h.tx_total_size as u64, (h.send_queue_len + h.pending_queue_len + h.resend_queue_len) as u64);
+                    match probe {
+                        Probe::Hc(h) => {
+                            if let Some(dst) = peer_of(cx.plan, *ep) {
+                                self.last_tx.insert((*ep, dst), t(h));
+                            }
+                        }
+                        Probe::Client(c) => {
+                            if let (Some(h), Some(dst)) = (&c.hc, peer_of(cx.plan, *ep)) {
+                                self.last_tx.insert((*ep, dst), t(h));
+                            }
+                        }
+                        Probe::Server(s) => {
+                            for c in s.clients.iter() {
+                                if let (Some(h), Some(dst)) = (&c.hc, cx.ep_of(&c.address)) {
+                                    self.last_tx.insert((*ep, dst), t(h));
+                                }
+                            }
+                        }
+                        Probe::Rate(_) | Probe::None => (),
+                    }
+                }
                 if self.clauses.buffer_model {
                     let mut checks: Vec<(usize, u64)> = Vec::new();
                     match probe {
@@ -413,6 +470,15 @@ impl Oracle for TransportOracle {
                                 return viol(prop, clause, d, 0);
                             }
                         }
+                        // ... after which the sender reports nothing pending and an empty buffer
+                        if live {
+                            if let Some(&(size, queued)) = self.last_tx.get(&(*src, *dst)) {
+                                if size != 0 || queued != 0 {
+                                    let d = format!("{} -> {}: every Reliable packet was delivered and the network has been fair for the whole liveness budget, but the sender still reports send_buffer_size() = {} and {} packets queued or unacknowledged", src, dst, size, queued);
+                                    return viol(prop, "sender_not_drained", d, 0);
+                                }
+                            }
+                        }
                         if ideal && dir.skipped_ts_ideal + dir.subs[dir.global_ptr..].iter().filter(|s| s.mode == MODE_TIME_SENSITIVE).count() as u64 != dir.ts_dropped_traces {
                             let d = format!("{} -> {}: {} TimeSensitive packets missing at the receiver but the sender discarded {}", src, dst,
                                 dir.skipped_ts_ideal + dir.subs[dir.global_ptr..].iter().filter(|s| s.mode == MODE_TIME_SENSITIVE).count() as u64, dir.ts_dropped_traces);
@@ -431,6 +497,7 @@ impl Oracle for TransportOracle {
         let mut a = |k: &str, v: u64| *out.entry(k.to_string()).or_insert(0) += v;
         a("packets_delivered_checked", self.deliveries);
         a("multi_fragment_deliveries", self.multi_fragment_deliveries);
+        a("deliveries_from_a_crashed_peers_previous_incarnation", self.old_generation_deliveries);
         a("short_untagged_deliveries", self.short_deliveries);
         a("nonreliable_packets_skipped_by_receiver", self.skipped_nonreliable);
         a("runs_crossing_packet_id_wrap", self.wrap_packet as u64);
